@@ -85,12 +85,23 @@ type Heap struct {
 	// epoch names the last whole-heap havoc on this path ("" = function entry): a component
 	// first touched after such a havoc is a constant of that epoch, not the entry value
 	epoch string
+	// pending: components havocked (at a loop head) before their sort was known, i.e. before the path
+	// first touched them; when they are first touched they are constants of that havoc, not entry values
+	pending map[string]string
+	facts   []*Term // facts about lazily created constants, not yet in the path condition
 }
 
 func (h *Heap) clone() *Heap {
 	n := &Heap{comps: make(map[string]*Term, len(h.comps)), alloc: h.alloc, epoch: h.epoch}
 	for k, v := range h.comps {
 		n.comps[k] = v
+	}
+	n.facts = append([]*Term(nil), h.facts...)
+	if len(h.pending) > 0 {
+		n.pending = make(map[string]string, len(h.pending))
+		for k, v := range h.pending {
+			n.pending[k] = v
+		}
 	}
 	return n
 }
@@ -101,11 +112,13 @@ type State struct {
 	pc    []*Term
 	known map[string]bool // assumptions already added (dedupe)
 	dead  bool
+	// markHeap: heap right after the call designated by the unit's `mark` clause returned (spec function marked)
+	markHeap *Heap
 	// ghost: set of heap refs allocated since entry is alloc0 <= r < alloc
 }
 
 func (s *State) clone() *State {
-	n := &State{heap: s.heap.clone(), pc: append([]*Term(nil), s.pc...), known: make(map[string]bool, len(s.known))}
+	n := &State{heap: s.heap.clone(), pc: append([]*Term(nil), s.pc...), known: make(map[string]bool, len(s.known)), markHeap: s.markHeap}
 	for k := range s.known {
 		n.known[k] = true
 	}
